@@ -38,6 +38,7 @@ func init() {
 	execs["c03.rt"] = execC03Rt
 	execs["c03.dec"] = execC03Dec
 	execs["c03.stack"] = execC03Stack
+	execs["c03.cur"] = execC03Cur
 	gens["C03"] = genC03
 }
 
@@ -139,6 +140,28 @@ func execC03Dec(in sx.V) sx.V {
 	c.ResetCounters()
 	again := tlb.Marshal(c2, pv.Elem().Interface()) == nil && sameHash(c2, c)
 	return sx.L(v, sx.B(all), sx.B(again))
+}
+
+// c03.cur (name descriptor value k) -> 'err | (cell): tlb.Marshal after the read
+// cursors of the bit strings and cells inside the Go value were advanced by k
+func execC03Cur(in sx.V) sx.V {
+	if in.K != sx.KL || len(in.List) != 4 {
+		return sx.L(sx.A("harness-error"), sx.A("shape"))
+	}
+	ct, e := c03Lookup(sx.L(in.List[0], in.List[1], in.List[2]), 3)
+	if ct == nil {
+		return e
+	}
+	pv := reflect.New(ct.t)
+	if err := ct.d.Fill(in.List[2], pv.Elem()); err != nil {
+		return sx.L(sx.A("harness-error"), sx.A("fill"), sx.Str(err.Error()))
+	}
+	tlbdesc.AdvanceCursors(pv.Elem(), in.List[3].I())
+	c := boc.NewCell()
+	if err := tlb.Marshal(c, pv.Elem().Interface()); err != nil {
+		return sx.A("err")
+	}
+	return sx.L(tlbdesc.CellSx(c))
 }
 
 // c03.stack (descriptor-of-VmStackValue (value...)) -> 'err | (cell (value'...))
@@ -410,6 +433,11 @@ func genC03(c *Ctx) {
 			}
 		}
 	}
+	// 3c. read cursors advanced before marshalling (a value that was decoded and inspected):
+	//     the encoding must be the one of the fresh value
+	c03Cursors(c)
+	// 3d. exploration of the types outside the model (oracle on the implementation only)
+	c03Explore(c)
 	// 4. real chain data: every message of the transactions in the testdata
 	//    blocks, decoded, re-encoded (hash against the source cell) and run
 	//    through the model
@@ -578,4 +606,168 @@ func c03EqualButOutMsgs(a, b *boc.Cell) bool {
 		}
 	}
 	return true
+}
+
+// c03HasCursor: the descriptor holds a bit string or a cell (something with a read cursor).
+func c03HasCursor(d *tlbdesc.Desc) bool {
+	switch d.K {
+	case tlbdesc.KAddr, tlbdesc.KAny, tlbdesc.KCellRef, tlbdesc.KCellSlice:
+		return true
+	}
+	for _, s := range d.Sub {
+		if c03HasCursor(s) {
+			return true
+		}
+	}
+	for _, a := range d.Alts {
+		if a.D != nil && c03HasCursor(a.D) {
+			return true
+		}
+	}
+	return false
+}
+
+func c03Cursors(c *Ctx) {
+	var names []string
+	for _, n := range c03Names {
+		if c03HasCursor(c03Types[n].d) {
+			names = append(names, n)
+		}
+	}
+	per := c.Scale(2, 25)
+	for _, n := range names {
+		ct := c03Types[n]
+		k := per
+		if n == "tlb.MsgAddress" {
+			k = c.Scale(120, 1500)
+		}
+		if n == "tlb.Message" || n == "tlb.CommonMsgInfo" {
+			k = c.Scale(60, 600)
+		}
+		for i := 0; i < k; i++ {
+			pv := reflect.New(ct.t)
+			v := ct.d.Rand(c.R, pv.Elem(), 0)
+			adv := []int{1, 3, 8, 9, 64, 511}[c.R.Intn(6)]
+			fresh := safeExec("c03.cur", sx.L(sx.Str(ct.name), ct.d.Sx(), v, sx.Nat(0)))
+			in := sx.L(sx.Str(ct.name), ct.d.Sx(), v, sx.Nat(adv))
+			moved := tlbdesc.AdvanceCursors(pv.Elem(), adv)
+			if moved == 0 {
+				continue
+			}
+			out := c.Emit("c03.cur", in, c03Class("cursor", ct, v))
+			if out.String() != fresh.String() {
+				c.Fail("c03.cur", in, "cursor-"+ct.name, "tlb.Marshal of "+ct.name+" depends on the read cursor of a bit string / cell inside the value: got "+trunc(out.String(), 120)+" want "+trunc(fresh.String(), 120))
+			}
+		}
+	}
+}
+
+// clean-tree behaviour of types outside the model that is not a round trip
+// (reported to the integrator; counted under a "known:" class, not alarmed).
+//   * a non-nil but empty wallet.W5ExtendedActions list writes nothing, while the decoder
+//     needs at least one action ("can not decode sumtype W5ExtendedAction"); the same through
+//     wallet.MessageV5 / MessageV5Beta holding a pointer to an empty list
+func c03ExploreKnown(n, canon, what string) (string, bool) {
+	if strings.Contains(what, "can not decode sumtype W5ExtendedAction") &&
+		(canon == "[]" || strings.Contains(canon, "ExtendedActions=[]")) {
+		return "empty-extended-action-list-does-not-decode", true
+	}
+	return "", false
+}
+
+func c03Explore(c *Ctx) {
+	var names []string
+	for n, ct := range c03Types {
+		if n == "tlb.VmStack" {
+			continue // modelled separately (c03.stack): its decoder returns the reversed list by convention
+		}
+		if ct.class == tlbdesc.ClassOpaque || ct.class == tlbdesc.ClassDecodeOnly {
+			names = append(names, n)
+		} else if ct.class == tlbdesc.ClassDescribed {
+			var vs []string
+			ct.d.Voids(&vs)
+			if len(vs) > 0 {
+				names = append(names, n)
+			}
+		}
+	}
+	sort.Strings(names)
+	per := c.Scale(12, 150)
+	for _, n := range names {
+		ct := c03Types[n]
+		for i := 0; i < per; i++ {
+			pv := reflect.New(ct.t)
+			if !tlbdesc.GoRand(c.R, pv.Elem(), "", 0) {
+				c.Note("c03.explore", c03ExploreClass(ct)+"|cannot-generate", sx.Str(n))
+				break
+			}
+			c03ExploreOne(c, ct, pv)
+		}
+	}
+}
+
+func c03ExploreClass(ct *c03Type) string {
+	cl := ct.class
+	if cl == tlbdesc.ClassDescribed {
+		cl = "partial"
+	}
+	return "explore|" + ct.name[:strings.IndexByte(ct.name, '.')] + "|" + cl
+}
+
+func c03ExploreOne(c *Ctx, ct *c03Type, pv reflect.Value) {
+	n := ct.name
+	in := sx.L(sx.Str(n), sx.Str(trunc(tlbdesc.Canon(pv.Elem()), 600)))
+	fail := func(what string) {
+		if why, ok := c03ExploreKnown(n, tlbdesc.Canon(pv.Elem()), what); ok {
+			c.Note("c03.explore", c03ExploreClass(ct)+"|known:"+why, in)
+			return
+		}
+		c.Fail("c03.explore", in, "opaque-roundtrip-"+n, what)
+	}
+	var c1 *boc.Cell
+	var err error
+	step := func(f func() error) (panicked bool) {
+		defer func() {
+			if r := recover(); r != nil {
+				panicked = true
+				err = fmt.Errorf("panic: %v", r)
+			}
+		}()
+		err = f()
+		return false
+	}
+	c1 = boc.NewCell()
+	if step(func() error { return tlb.Marshal(c1, pv.Elem().Interface()) }) {
+		fail("tlb.Marshal panicked on a value of " + n + ": " + err.Error())
+		return
+	}
+	if err != nil {
+		c.Note("c03.explore", c03ExploreClass(ct)+"|encode-err", in)
+		return
+	}
+	before := tlbdesc.Canon(pv.Elem())
+	pv2 := reflect.New(ct.t)
+	c1.ResetCounters()
+	if step(func() error { return tlb.Unmarshal(c1, pv2.Interface()) }) || err != nil {
+		fail("encoding a value of " + n + " succeeded but decoding the produced cell failed: " + err.Error())
+		return
+	}
+	if after := tlbdesc.Canon(pv2.Elem()); after != before {
+		i := 0
+		for i < len(after) && i < len(before) && after[i] == before[i] {
+			i++
+		}
+		j := i - 60
+		if j < 0 {
+			j = 0
+		}
+		fail("decode(encode v) differs from v for " + n + " at: got ..." + trunc(after[j:], 160) + " want ..." + trunc(before[j:], 160))
+		return
+	}
+	c2 := boc.NewCell()
+	if step(func() error { return tlb.Marshal(c2, pv2.Elem().Interface()) }) || err != nil || !sameHash(c1, c2) {
+		fail("encoding the decoded value of " + n + " again gives a different cell")
+		return
+	}
+	c.Note("c03.explore", c03ExploreClass(ct)+"|roundtrip-ok", in)
 }
